@@ -141,7 +141,8 @@ def r1_responses(report, repo):
       if v['expected']:
         if ended != 'exit':
           return 'final-row: the expected final packet must return'
-        if dotted(p.last_return().value) != rem:
+        if not slice_of(cfgm.path_resolve(p, p.last_return().value), 4,
+                        None):
           return 'final-row: must return the payload'
         if (len(cbs) == 1) != v['okay']:
           return 'final-row: callback on OKAY only (got %d calls, okay=%s)' % (
@@ -390,8 +391,9 @@ def r5_progress(report, repo):
               'try/except Exception that continues the generator; the '
               'cumulative count advances on every path between two yields')
   f = repo.func(FP, 'FastbootProtocol._handle_progress')
-  cb = lib.param_names(f.node)[2]
-  cs = [c for c in core.calls_in(f.node) if dotted(c.func) == cb]
+  # the callback: the parameter that is called (the method may be static)
+  params = lib.param_names(f.node)
+  cs = [c for c in core.calls_in(f.node) if dotted(c.func) in params]
   report.expect_instances(rule, len(cs), 1, 'callback invocations')
   sh = lib.shielded_by_try(cs[0], ('Exception', 'BaseException', None))
   ok = sh is not None and not any(
@@ -439,7 +441,11 @@ def r5_progress(report, repo):
                'when the progress callback raises, the running total is not '
                'advanced: every later progress value (and the final one) is '
                'short')
-  ok = any(c for c in cs if [dotted(a) for a in c.args] == [cur, lib.param_names(f.node)[1]])
+  static = any(dotted(d) == 'staticmethod' for d in f.node.decorator_list)
+  others = [p for p in (params if static else params[1:])
+            if p != dotted(cs[0].func)]
+  ok = len(others) == 1 and any(
+      c for c in cs if [dotted(a) for a in c.args] == [cur, others[0]])
   report.check(ok, rule, f.qualname, 'reports-cumulative', cs[0],
                'the callback receives (cumulative, total)')
 
